@@ -83,7 +83,7 @@ def one_case(ctx, kind, inp, inp2, user_seed, check_model=True):
         extra = sorted(k for k in now if k not in t1 and k not in fresh2 and not k.endswith(".LostCode.txt"))
         if bad or untouched or extra:
             return {"kind": kind, "input": inp, "input2": inp2, "user_seed": user_seed, "files": bad[:5], "modified_not_generated": untouched[:5],
-                    "unexpected_files": extra[:5], "finding_key": "%s:%s:%s" % (kind, inp2.get("name"), (bad + untouched + extra)[0])}
+                    "unexpected_files": extra[:5], "finding_key": "%s:%s:%s" % (kind, inp2.get("name"), os.path.basename((bad + untouched + extra)[0]))}
         return None if user else "trivial"
 
 
